@@ -612,6 +612,14 @@ func c14Exec(r *gosim.Run) {
 		if j >= 0 && j < len(w.ops) {
 			where += fmt.Sprintf(" during op %d %s", j, w.ops[j])
 			opKind = w.ops[j].K
+			// the operation's mode is part of the class: the recorded defects are
+			// about the pinning paths only, a direct write in any other mode is new
+			switch opKind {
+			case "set":
+				opKind += "-" + []string{"sync", "remove", "pin", "unpin"}[c11Mode(w.ops[j].Arg(0), 4)]
+			case "put":
+				opKind += "-" + []string{"request", "requestpin", "upload", "uploadpin"}[c11Mode(w.ops[j].Arg(0), 4)]
+			}
 		} else if j == -1 {
 			where += " during the first open"
 		} else {
